@@ -1,8 +1,49 @@
 import NauyacaVerif.Drv.Common
+import NauyacaVerif.Url.Proxy
+import NauyacaVerif.Url.Router
+import NauyacaVerif.Srv.Render
+import NauyacaVerif.Srv.RelayModel
 namespace NauyacaVerif.Drv.ProxyD
-open NauyacaVerif.Drv
+open NauyacaVerif.Drv Url
 
-/-- line-protocol handler of this area; `none` = not one of ours -/
+def parseRoute (s : String) : Option Route :=
+  if s.startsWith "e:" then some ⟨cpsChars (s.drop 2).toString, .exact⟩
+  else if s.startsWith "p:" then some ⟨cpsChars (s.drop 2).toString, .pfx⟩
+  else none
+
+def parseBody (b : String) : Srv.Body :=
+  if b == "n" then .none
+  else if b.startsWith "s:" then .str (cpsNat (b.drop 2).toString)
+  else .bytes (unhexS (b.drop 2).toString)
+
+def showRender (r : Srv.Resp) : String :=
+  let hb := Srv.render r
+  s!"ok {toHex hb.1} {toHex hb.2}"
+
+/-- line-protocol handler of this area; `none` = not one of ours
+    `proxy <upstream> <prefix> <strip:0|1> <path> <query>`  (code points)  → `ok <url>`
+    `route <path> <r;r;…|->`   r ::= `e:<pattern>` | `p:<pattern>`        → `ok <index>` | `ok default`
+    `relay resp <status> <meta> <n | b:hex | s:cps>` | `relay fail <t|c|o> <msg>` → `ok <header-hex> <body-hex>` -/
 def handle : List String → Option String
+  | ["proxy", up, pre, strip, path, query] =>
+    if strip == "0" || strip == "1" then
+      some s!"ok {showCps (proxyUrl (cpsChars up) (cpsChars pre) (strip == "1") (cpsChars path) (cpsChars query))}"
+    else some "bad-op"
+  | ["route", path, routes] =>
+    match (if routes == "-" then some [] else (routes.splitOn ";").mapM parseRoute) with
+    | none => some "bad-op"
+    | some rs =>
+      match route rs (cpsChars path) with
+      | some i => some s!"ok {i}"
+      | none => some "ok default"
+  | ["relay", "resp", st, m, b] =>
+    some (showRender (Srv.proxyRespond (.resp ⟨parseInt st, cpsNat m, parseBody b⟩)))
+  | ["relay", "fail", k, msg] =>
+    match (if k == "t" then some Srv.FailClass.timeout else if k == "c" then some .connection else if k == "o" then some .other else none) with
+    | some cls => some (showRender (Srv.proxyRespond (.fail cls (cpsNat msg))))
+    | none => some "bad-op"
+  | "proxy" :: _ => some "bad-op"
+  | "route" :: _ => some "bad-op"
+  | "relay" :: _ => some "bad-op"
   | _ => none
 end NauyacaVerif.Drv.ProxyD
